@@ -24,6 +24,7 @@ type Clause struct {
 }
 
 type LoopSpec struct {
+	Defines    []*Clause // definitional axioms for ghost functions over the loop's data (conservative extensions; listed)
 	Invariants []*Clause
 	Decreases  *Clause
 }
@@ -34,6 +35,7 @@ type FuncSpec struct {
 	Props    []string
 	Requires []*Clause
 	Ensures  []*Clause
+	Assumes  []*Clause // assumed at function entry without being required from callers (listed as assumptions)
 	Marks    []*Clause // typestate marks: assumed after a call, never checked against the body (they define ghost facts)
 	GhostMod []string  // ghost regions modified in addition to the inferred effects
 	Exits    []*Clause // assertions at every return point over the function's locals (not visible to callers)
@@ -240,6 +242,12 @@ func (sp *Specs) parseFile(f *ast.File, fset *token.FileSet, pkgPath string) {
 				}
 				cur.Options["assumepre:"+fs[0]] = reason
 			}
+		case "assumes":
+			if cur == nil {
+				sp.errf(l.file, l.line, "assumes outside func")
+				continue
+			}
+			cur.Assumes = append(cur.Assumes, parseClause(rest, l.file, l.line, autoLabel("assume")))
 		case "marks":
 			if cur == nil {
 				sp.errf(l.file, l.line, "marks outside func")
@@ -279,6 +287,8 @@ func (sp *Specs) parseFile(f *ast.File, fset *token.FileSet, pkgPath string) {
 			switch parts[1] {
 			case "invariant":
 				ls.Invariants = append(ls.Invariants, parseClause(parts[2], l.file, l.line, autoLabel(fmt.Sprintf("loop%d.inv", n))))
+			case "define":
+				ls.Defines = append(ls.Defines, parseClause(parts[2], l.file, l.line, autoLabel(fmt.Sprintf("loop%d.def", n))))
 			case "decreases":
 				ls.Decreases = parseClause(parts[2], l.file, l.line, fmt.Sprintf("loop%d.decreases", n))
 			default:
@@ -412,6 +422,8 @@ func ghostSort(t string) string {
 		return "Iface"
 	case "bytes": // a byte memory snapshot
 		return "(Array Int Int)"
+	case "reals": // a float memory snapshot
+		return "(Array Int Real)"
 	case "intset":
 		return "(Array Int Bool)"
 	case "intmap":
